@@ -418,4 +418,46 @@ def r9_5(ctx: Ctx) -> RuleResult:
     return rr
 
 
-RULES = [r9_1, r9_2, r9_3, r9_4, r9_5]
+MEMO_DECORATORS = {"lru_cache", "cache", "cached_property", "memoize"}
+
+
+def r9_6(ctx: Ctx) -> RuleResult:
+    """No memoisation on the evaluation / document-loading path: a cache that
+    outlives a call makes results depend on history and hands the same mutable
+    object to unrelated evaluations."""
+    rr = RuleResult("R9.6", "nothing reachable from evaluation is memoised across calls", floor=20)
+    entries = [ctx.repo.require_func(n) for n in EVAL_ENTRIES]
+    reach = ctx.callgraph.reachable(entries)
+    for q in sorted(reach):
+        fn = ctx.repo.functions[q]
+        memo = []
+        for d in fn.node.decorator_list:
+            target = d.func if isinstance(d, ast.Call) else d
+            name = target.id if isinstance(target, ast.Name) else getattr(target, "attr", "")
+            if name in MEMO_DECORATORS:
+                memo.append(name)
+        if memo:
+            rr.bad(fn, fn.node, f"{fn.qualname} is memoised with @{memo[0]} and is reachable from query evaluation: "
+                   "equal inputs then share one (mutable) result across evaluations, so a later result depends on what "
+                   "callers did with an earlier one", construct=f"@{memo[0]} on {fn.name}")
+        else:
+            rr.ok(fn.loc(), f"{fn.qualname}: not memoised")
+        # module-level mutable state written from the evaluation path
+        mod_globals = {
+            n for n, e in fn.module.assigns.items()
+            if isinstance(e, (ast.Dict, ast.List, ast.Set)) or (isinstance(e, ast.Call) and callee_name(e) in ("dict", "list", "set", "defaultdict", "OrderedDict", "WeakValueDictionary"))
+        }
+        local_names = {a.arg for a in fn.node.args.args} | {
+            x.id for x in ast.walk(fn.node) if isinstance(x, ast.Name) and isinstance(x.ctx, ast.Store)
+        }
+        for node, recv, how in _writes(fn):
+            root = recv
+            while isinstance(root, (ast.Attribute, ast.Subscript)):
+                root = root.value
+            if isinstance(root, ast.Name) and root.id in mod_globals and root.id not in local_names:
+                rr.bad(fn, node, f"`{short(node)}` writes to the module-level container `{root.id}` during evaluation",
+                       construct=short(node))
+    return rr
+
+
+RULES = [r9_1, r9_2, r9_3, r9_4, r9_5, r9_6]
